@@ -9,7 +9,8 @@ Local Open Scope Q_scope.
 
 (* relation kinds: 0 bit-identical (threads, unit weights), 1 equal up to rounding (column permutation,
    replication of normalised distances, integer weights, reverse complement), 2 B = k * A (raw distance under
-   replication), 3 rows permuted: B[i][j] = A[perm i][perm j], 4 failing model: the call returned with an error *)
+   replication), 3 rows permuted: B[i][j] = A[perm i][perm j], 4 failing model: the call returned with an error, 5 sequence ranges [r1min; r1max; r2min; r2max] in k_perm:
+   B holds A's entries on the requested pairs and 0 elsewhere *)
 Record case := mk {
   k_what : bs; k_kind : Z; k_factor : Z; k_perm : list Z;
   k_a : list (list fl); k_b : list (list fl);
@@ -26,11 +27,36 @@ Definition same (x y : fl) : bool := Z.eqb (fl_class x) (fl_class y) && (negb (Z
 
 Definition model_ok (c : case) : bool := Z.eqb (k_kind c) 4 || C07.model_ok (k_case_b c).
 
+(* DistMatrix with ranges: pair (i,j), i <> j, is computed when i is in range 1 and j in range 2 (maxima clipped to
+   the last row); the result is stored symmetrically *)
+Definition in_ranges (c : case) (n : nat) (i j : nat) : bool :=
+  let r k := nth k (k_perm c) 0%Z in
+  let clip x := Z.min x (Z.of_nat n - 1) in
+  let zi := Z.of_nat i in let zj := Z.of_nat j in
+  negb (Nat.eqb i j) &&
+  (((r 0%nat <=? zi) && (zi <=? clip (r 1%nat)) && (r 2%nat <=? zj) && (zj <=? clip (r 3%nat)))%Z ||
+   ((r 0%nat <=? zj) && (zj <=? clip (r 1%nat)) && (r 2%nat <=? zi) && (zi <=? clip (r 3%nat)))%Z).
+Definition is_zero (x : fl) : bool := Z.eqb (fl_class x) 0 && Qeq_bool (fl_q x) 0.
+
 Definition spec_check (c : case) : option bool :=
   let a := k_a c in
   let b := k_b c in
   let n := length a in
   if Z.eqb (k_kind c) 4 then Some (k_returned c && k_errored c) else
+  if Z.eqb (k_kind c) 5 then
+    let mxb := qmax (finite_cells b n) in
+    Some (k_returned c && negb (k_errored c) && Nat.eqb (length b) n &&
+      forallb (fun i => forallb (fun j =>
+        let y := cell b i j in
+        if negb (in_ranges c n i j) then is_zero y
+        else
+          let st := pair_status (k_case_b c) (Nat.min i j) (Nat.max i j) in
+          same y (cell b j i) &&
+          (if Z.eqb st 0 then same (cell a i j) y
+           else if Z.eqb st 2 then negb (Z.eqb (fl_class y) 0) || Qle_bool mxb (fl_q y)
+           else if Z.eqb st 1 then   (* borderline: either the same finite value, or treated as undefined *)
+             same (cell a i j) y || negb (Z.eqb (fl_class y) 0) || Qle_bool mxb (fl_q y)
+           else true)) (seq 0 n)) (seq 0 n)) else
   Some (k_returned c && negb (k_errored c) && Nat.eqb (length b) n &&
     forallb (fun i => forallb (fun j =>
       let x := cell a i j in
